@@ -3,7 +3,7 @@ CONSTANTS
   Mode = "pool"
   Gen = "iter"
   Dev = {"DfsDrop"}
-  LastBy = "index"
+  LastBy = "identity"
   MaxLines = 4
   MaxDepth = 9
   MaxBlank = 0
